@@ -52,6 +52,22 @@ def run_solver(des, wt, sc, cons, first=None):
     first: desired positions of an EARLIER solve() on the same Solver; des is then installed with setDesiredPositions()
     and the observed run is the re-solve."""
     vs = [vpsc.Variable(d, w, s) for d, w, s in zip(des if first is None else first, wt, sc)]
+    coin = random.Random(repr((list(map(str, des)), [(a, b, str(g)) for a, b, g in cons])))
+    if coin.random() < 0.25 and len(vs) >= 2:
+        # the Variable objects have a past: an EARLIER Solver, with another constraint set, was solved on them (a problem
+        # instance is its variables' values and its constraints, not the history of the objects that carry them)
+        try:
+            order = list(range(len(vs)))
+            coin.shuffle(order)
+            prior = [vpsc.Constraint(vs[a], vs[b], coin.choice([0, 1, 2])) for a, b in zip(order, order[1:])][:coin.randint(1, len(vs) - 1)]
+            ps = vpsc.Solver(vs, prior)
+            for _ in range(200):
+                before = [(c.active, c.unsatisfiable) for c in prior]
+                ps.satisfy()
+                if before == [(c.active, c.unsatisfiable) for c in prior]:
+                    break
+        except Exception:
+            pass
     cs = [vpsc.Constraint(vs[a], vs[b], g) for a, b, g in cons]
     solver = vpsc.Solver(vs, cs)
     budget = 10 * (len(vs) + len(cs)) + 100
